@@ -512,6 +512,12 @@ fn read_payload_size(buffer: &[u8]) -> Result<(usize, usize), ReadError> {
 
     for i in 0..std::cmp::min(buffer.len(), max_len) {
         if decode::is_last(buffer[i]) {
+            // The last byte of a maximum-length varint can only carry the top bit of the value;
+            // anything else does not fit and would be silently truncated by the decoder.
+            if i == max_len - 1 && buffer[i] > 0x01 {
+                return Err(ReadError::Overflow);
+            }
+
             match decode::usize(&buffer[..=i]) {
                 Err(_) => return Err(ReadError::DecodeError),
                 Ok(size) => return Ok((size.0, i + 1)),
